@@ -509,6 +509,8 @@ class Gen:
         if contract_lo is None or not twin_ok or self.twins == 'none':
             return
         contract = '\n'.join(self.out[contract_lo:contract_hi])
+        if re.search(r'\bspec\s+fn\b', '\n'.join(self.out[b['gen_lo'] - 1:contract_hi])):
+            return   # a lifted spec function has no ensures to be vacuous about
         has_req = re.search(r'^\s*requires\b', contract, re.M) is not None
         if self.twins == 'req' and not has_req:
             return
